@@ -224,11 +224,12 @@ def lengthSquares (lines : List (List (Option Pt))) : List Int := (lines.map seg
 /-! ### orientation (`orient_polygons`) -/
 
 /-- rings of one polygon after `orient_polygons`: ring 0 is expected counter-clockwise
-(`area >= 0`), the others clockwise; a ring whose direction differs is reversed -/
+(`area >= 0`), the others clockwise; a ring of non-zero area whose direction differs is reversed
+(`flip = (is_ccw != expected_ccw) & (area != 0)`) -/
 def orientRings : List (List Pt) → List (List Pt)
   | [] => []
   | shell :: holes =>
-    (if ringArea2 shell ≥ 0 then shell else shell.reverse) ::
-      holes.map (fun h => if ringArea2 h ≥ 0 then h.reverse else h)
+    (if ringArea2 shell < 0 then shell.reverse else shell) ::
+      holes.map (fun h => if ringArea2 h > 0 then h.reverse else h)
 
 end SpVerif.Geom
